@@ -38,30 +38,80 @@ def _fail(chk, rule, func, witness, text, path=()):
 
 
 def check_init_order(chk, ix):
+    """Z1 by evaluation: Configuration.__init__ run with recording stand-ins for load_configuration / the argument parser: the files
+    are loaded first, the parser then gets defaults that contain what the files set, and only then the command line is parsed."""
     chk.rule("Z1", WHAT["Z1"])
-    f = ix.func("behave.configuration:Configuration.__init__")
-    pos = {}
-    for n in ast.walk(f.node):
-        if isinstance(n, ast.Call):
-            u = unparse(n.func)
-            for key in ("load_configuration", "set_defaults", "parse_args"):
-                if u.split(".")[-1] == key and key not in pos:
-                    pos[key] = (n.lineno, n)
+    cc = ix.cls("behave.configuration:Configuration")
+    f = cc.lookup("__init__")
+    if f is None:
+        raise AnalysisError("anchor missing: Configuration.__init__")
+    log = []
+
+    def init(it_, st_, a, k, n):
+        st_.wobj(a[0]).fields["defaults"] = st_.alloc(HObj("dict", kind="dict", items=[("color", "built-in default"), ("stage", None)]))
+        st_.wobj(a[0]).fields["verbose"] = False
+        for name in ("formatters", "reporters"):
+            st_.wobj(a[0]).fields[name] = st_.alloc(HObj("list", kind="list", items=[]))
+        return [(st_, "val", None)]
+
+    def load(it_, st_, a, k, n):
+        d = a[0]
+        if not (isinstance(d, Ref) and st_.obj(d).kind == "dict"):
+            raise AnalysisError("load_configuration is not given a dictionary: %r" % (d,))
+        log.append(("load", d.oid))
+        o = st_.wobj(d)
+        o.items = [(kk, vv) for kk, vv in o.items if kk != "color"] + [("color", "from the config file")]
+        return [(st_, "val", None)]
+
+    def set_defaults(it_, st_, a, k, n):
+        log.append(("set_defaults", dict(k)))
+        return [(st_, "val", None)]
+
+    def parse_args(it_, st_, a, k, n):
+        log.append(("parse_args", None))
+        fields = {}
+        for fixed, kws in _options(ix):
+            d = _dest(fixed, kws)
+            if d:
+                fields[d] = None
+        fields.update({"paths": st_.alloc(HObj("list", kind="list", items=[])), "outfiles": None, "steps_catalog": False, "wip": False,
+                       "quiet": False, "stage": None, "color": "parsed", "userdata_defines": None, "format": None})
+        return [(st_, "val", st_.alloc(HObj("Namespace", fields, label="parsed args")))]
+    noop = lambda it_, st_, a, k, n: [(st_, "val", None)]      # noqa: E731
+    stubs = {"Configuration.init": init, "Configuration.make_command_args": lambda it_, st_, a, k, n: [(st_, "val", st_.alloc(HObj("list", kind="list", items=["features"])))],
+             "load_configuration": load, "behave.configuration.load_configuration": load,
+             "setup_parser": lambda it_, st_, a, k, n: [(st_, "val", st_.alloc(HObj("ParserTok", {}, open=True, label="argument parser")))],
+             "ParserTok.set_defaults": set_defaults, "ParserTok.parse_args": parse_args, "Configuration.show_bad_formats_and_fail": noop,
+             "os.path.normpath": lambda it_, st_, a, k, n: [(st_, "val", a[0])]}
+    for name, m in cc.methods.items():
+        if name.startswith("setup_"):
+            stubs["Configuration." + name] = noop
+    it = Interp(ix, stubs=stubs, name="Configuration.__init__")
+    it.int_sat = 100
+    it.list_cap = 200
+    st = State()
+    st.frames = []
+    me = st.alloc(HObj(cc, {}, label="configuration"))
+    try:
+        outs = it.call_function(st, f, [st.alloc(HObj("list", kind="list", items=["features"]))], {}, None, self_val=me)
+    except AnalysisError as e:
+        raise AnalysisError("Configuration.__init__ not evaluable: %s" % e)
+    chk.absorb(it)
     chk.instance("Z1")
-    if len(pos) == 3 and pos["load_configuration"][0] < pos["set_defaults"][0] < pos["parse_args"][0]:
-        sd = pos["set_defaults"][1]
-        lc = pos["load_configuration"][1]
-        same = any(isinstance(k.value, ast.Attribute) and unparse(k.value) == "self.defaults" for k in sd.keywords if k.arg is None) and \
-            lc.args and unparse(lc.args[0]) == "self.defaults"
-        if same:
-            chk.ok("Z1", {"order": ["load_configuration(self.defaults)", "parser.set_defaults(**self.defaults)", "parser.parse_args(...)"]},
-                   nontrivial_key="order")
-            return
-        _fail(chk, "Z1", f, "defaults object differs", "the defaults given to the parser are not the ones the config files were loaded into")
+    if len(outs) != 1 or outs[0][1] != "val":
+        raise AnalysisError("Configuration.__init__ not evaluable: %r" % ([(k, v) for _, k, v in outs][:3],))
+    order = [e[0] for e in log]
+    sd = next((e[1] for e in log if e[0] == "set_defaults"), None)
+    if order[:3] != ["load", "set_defaults", "parse_args"] or order.count("parse_args") != 1:
+        _fail(chk, "Z1", f, "order %s" % order,
+              "Configuration.__init__ does not load the config files, install the defaults and parse the command line in this order: %s" % (order,))
+    elif sd.get("color") != "from the config file":
+        _fail(chk, "Z1", f, "defaults object differs", "the defaults given to the parser (%r) are not the ones the config files were loaded into" % (sd.get("color"),))
+    elif outs[0][0].obj(me).fields.get("color") != "parsed":
+        _fail(chk, "Z1", f, "parsed value not stored", "the value the parser returns for an option is not what the Configuration stores (%r)"
+              % (outs[0][0].obj(me).fields.get("color"),))
     else:
-        _fail(chk, "Z1", f, "order %s" % {k: v[0] for k, v in pos.items()},
-              "Configuration.__init__ does not load the config files, install the defaults and parse the command line in this order: %s" % (
-                  {k: v[0] for k, v in pos.items()},))
+        chk.ok("Z1", {"order": order, "parser defaults": "include the config-file values", "stored": "what the parser returned"}, nontrivial_key="order")
 
 
 def _options(ix):
